@@ -9,6 +9,9 @@ CLAIMED = {
  "C01": ("lock/representation invariants + whole-view postconditions on allocator.IPAllocator, VCs from the typed Go AST discharged by z3/cvc5",
          "Deductive proof, per function and for all inputs/histories/schedules of lock-protected calls, that the bitmap allocator's maps stay mutually inverse (no prefix index has two holders), indices stay below the pool size and a repeated Allocate returns the same index and changes nothing. Other pool implementations are listed as undecided in the evidence.",
          "Trusted: the VC generator and SMT encoding, solvers, assumed math/big and Go-map contracts, monitor model for sync.RWMutex; IP byte arithmetic only under frame contracts.", "DESIGN.md §5 C01"),
+ "C04": ("gate preconditions at every call site of the granting operations + provenance/inertness postconditions (ghost verdict of the RADIUS oracle), VCs from the typed Go AST discharged by z3/cvc5",
+         "Deductive proof for the PPPoE server.go frame handlers: SetState(IPCP/Established), client-address assignment and IPCP handling are reachable only with session.Authenticated; Authenticated becomes true only from the RADIUS verdict; frames/PADT from a MAC that does not own the session leave it unchanged. Three genuine defects found by these obligations were repaired (fix: commits).",
+         "Trusted: VC generator, solvers, trusted contract for radius.Client.Authenticate (oracle) and rawSocket.send, monitor model for Session.mu/SessionManager.mu; CHAP/Authenticator path not under contract.", "DESIGN.md §5 C04"),
  "C05": ("count/exhaustion lock invariants and postconditions on allocator.IPAllocator (ghost cardinalities), VCs discharged by z3/cvc5",
          "Deductive proof that allocatedCount equals the cardinality of both maps after every operation, that exhaustion is reported only when every index is taken, and that Stats returns those figures; one configuration-dependent defect (pools of 2^63+ prefixes) is a recorded known finding.",
          "Same trusted base as C01; cardinalities are ghost counters updated at map insert/delete.", "DESIGN.md §5 C05"),
